@@ -25,6 +25,7 @@ static int
 readname_loop(char *packet, int packetlen, char **src, char *dst, size_t length, size_t loop)
 {
 	char *dummy;
+	char *end;
 	char *s;
 	char *d;
 	int len;
@@ -37,11 +38,15 @@ readname_loop(char *packet, int packetlen, char **src, char *dst, size_t length,
 	len = 0;
 	s = *src;
 	d = dst;
-	while(*s && len < length - 2) {
+	end = packet + packetlen;
+	/* never read beyond the end of the packet */
+	while(s < end && *s && len < length - 2) {
 		c = *s++;
 
 		/* is this a compressed label? */
 		if ((c & 0xc0) == 0xc0) {
+			if (s >= end)
+				break; /* Pointer cut off by end of packet */
 			offset = (((s[-1] & 0x3f) << 8) | (s[0] & 0xff));
 			if (offset > packetlen) {
 				if (len == 0) {
@@ -57,7 +62,7 @@ readname_loop(char *packet, int packetlen, char **src, char *dst, size_t length,
 			goto end;
 		}
 
-		while(c && len < length - 1) {
+		while(c && len < length - 1 && s < end) {
 			*d++ = *s++;
 			len++;
 
@@ -68,7 +73,7 @@ readname_loop(char *packet, int packetlen, char **src, char *dst, size_t length,
 			break; /* We used up all space */
 		}
 
-		if (*s != 0) {
+		if (s < end && *s != 0) {
 			*d++ = '.';
 			len++;
 		}
